@@ -49,8 +49,23 @@ Definition named_value (s : scaling) (raw : Z) : shown :=
   | None => Number (phys_value s raw)
   end.
 
-(* phys2raw for a str argument that is a label of a non-empty table: the key; None = not a label
-   (falls through to decimal.Decimal(str), outside the model) *)
+(* phys2raw's label scan for a str argument: the key; None = not a label of the table *)
 Definition phys2raw_label (s : scaling) (label : Z) : option Z := label_to_raw (sc_values s) label.
 (* phys2raw for a Decimal argument on a signal *)
 Definition phys2raw_num (s : scaling) (v : dec) : option Z := phys2raw (sc_factor s) (sc_offset s) v.
+
+(* The argument of phys2raw as a whole.  A Python str is its interned text together with what decimal.Decimal(text)
+   makes of it (None = InvalidOperation: the text is not a number; Decimal(str) itself is trusted, and texts that parse to
+   NaN/Infinity are outside the model unless they are labels).  The code (~439-448) scans the value table FIRST for a str
+   argument and a non-empty table, and only then parses: a text that is a label converts to its key even when it reads
+   as a number ("1", "2.5e1", " 7 ").  None = the call raises. *)
+Inductive parg := PStr (text : Z) (parsed : option dec) | PNum (d : dec).
+Definition phys2raw_arg (s : scaling) (a : parg) : option Z :=
+  match a with
+  | PNum v => phys2raw_num s v
+  | PStr text parsed =>
+      match (match sc_values s with [] => None | _ :: _ => phys2raw_label s text end) with
+      | Some k => Some k
+      | None => match parsed with Some v => phys2raw_num s v | None => None end
+      end
+  end.
